@@ -269,6 +269,55 @@ fn verifier_sweep(cfg: &Cfg, rep: &mut Report) {
     }
 }
 
+/// Positional proofs of depth 30 / 31 (single path, random siblings): honest accepted up to the last
+/// index, any other index, an out-of-range index and a proof of 32 elements not accepted.
+fn deep_paths(cfg: &Cfg, rep: &mut Report) {
+    let h = 5_000u64;
+    if !cfg.runs(h) {
+        return;
+    }
+    let mut rng = Rng::for_history(cfg.seed, "C17", cfg.shard, h);
+    rep.begin_history(h);
+    let w = World::new(10, 16);
+    let e = &w.env;
+    let c = e.register(MerkleC, ());
+    for keccak in [false, true] {
+        let f = if keccak { "verify_idx_keccak" } else { "verify_idx_sha" };
+        for len in [30usize, 31, 32] {
+            let sib: Vec<H32> = (0..len).map(|_| rng.bytes()).collect();
+            let leaf: H32 = rng.bytes();
+            let top: u64 = 1u64 << len;
+            for index in [0u64, 1, top - 1, top / 2, rng.below(top)] {
+                let index = index.min(u32::MAX as u64) as u32;
+                let mut node = leaf;
+                let mut ix = index as u64;
+                for s in &sib {
+                    node = if ix % 2 == 0 { hash(keccak, &node, s) } else { hash(keccak, s, &node) };
+                    ix /= 2;
+                }
+                let call = |idx: u32| -> Result<bool, Fail> { invoke(e, &c, f, args!(e, to_vec(e, &sib), BytesN::from_array(e, &node), BytesN::from_array(e, &leaf), idx)) };
+                let got = call(index);
+                rep.evaluations += 4;
+                rep.case(format!("deep/{f}/len={len}/{}", match &got { Ok(b) => b.to_string(), Err(x) => x.tag() }));
+                if len < 32 {
+                    rep.check("honest", got == Ok(true), &format!("C17/honest/{f}/honest-proof-rejected/depth-{len}"), || format!("honest positional proof of depth {len} for index {index} -> {got:?}"));
+                    for other in [index ^ 1, index ^ (1 << (len - 1)), index ^ (1 << (len / 2))] {
+                        let g = call(other);
+                        rep.check("corrupt", g != Ok(true), &format!("C17/corrupt/{f}/accepted/wrong-index"), || format!("depth {len}: proof of index {index} accepted for index {other}"));
+                    }
+                    if len < 31 {
+                        let g = call(index | (1 << len));
+                        rep.check("corrupt", g != Ok(true), &format!("C17/corrupt/{f}/accepted/index-out-of-range"), || format!("depth {len}: index {} (beyond 2^{len}) accepted", index | (1 << len)));
+                    }
+                } else {
+                    rep.check("corrupt", got != Ok(true), &format!("C17/corrupt/{f}/accepted/proof-of-32-elements"), || format!("a positional proof of 32 elements was accepted for index {index}"));
+                }
+            }
+        }
+    }
+    rep.end_history();
+}
+
 fn leaf_hash(e: &Env, keccak: bool, index: u32, addr: &Address, amount: i128) -> H32 {
     let x = Receiver { index, address: addr.clone(), amount }.to_xdr(e);
     let mut b: Vec<u8> = vec![];
@@ -429,8 +478,9 @@ fn distributor(cfg: &Cfg, rep: &mut Report, h: u64, variant: u32) {
 }
 
 pub fn run(cfg: &Cfg, rep: &mut Report) {
-    rep.rule = "(a) for both hashers and both forms (sorted-pair, positional with index), every tree size 1..=65 (thorough 400) with fresh random leaves (split over shards): every leaf (beyond 40 leaves: first, last and a sample) with its honest proof from an independent tree builder, and every single corruption: one bit in each proof element, adjacent swap, first/last dropped, last duplicated, element appended, other leaf, random leaf, leaf bit, random root, root bit, every other index < 2^len (sampled beyond 64), index = 2^len and u32::MAX; (b) distributor histories on a wrapper (Keccak sorted, Keccak indexed, Sha256 indexed) and the airdrop example: valid claims (a sixth of the leaves allocate 0), repeats, proofs of other indices, wrong / zero / negative amount, wrong receiver / index, empty proof, root changes (claims proved against the previous root are retried), ledger jumps, under-funded airdrops (a valid proof whose payout fails). Sorted-pair trees are also built with two equal adjacent leaves and with odd nodes paired with themselves (a sibling equal to the running node). Distinct case = (hasher, form, tree-size class, leaf position, corruption kind, outcome).".into();
+    rep.rule = "(a) for both hashers and both forms (sorted-pair, positional with index), every tree size 1..=65 (thorough 400) with fresh random leaves (split over shards): every leaf (beyond 40 leaves: first, last and a sample) with its honest proof from an independent tree builder, and every single corruption: one bit in each proof element, adjacent swap, first/last dropped, last duplicated, element appended, other leaf, random leaf, leaf bit, random root, root bit, every other index < 2^len (sampled beyond 64), index = 2^len and u32::MAX; single-path positional proofs of depth 30, 31 and 32; (b) distributor histories on a wrapper (Keccak sorted, Keccak indexed, Sha256 indexed) and the airdrop example: valid claims (a sixth of the leaves allocate 0), repeats, proofs of other indices, wrong / zero / negative amount, wrong receiver / index, empty proof, root changes (claims proved against the previous root are retried), ledger jumps, under-funded airdrops (a valid proof whose payout fails). Sorted-pair trees are also built with two equal adjacent leaves and with odd nodes paired with themselves (a sibling equal to the running node). Distinct case = (hasher, form, tree-size class, leaf position, corruption kind, outcome).".into();
     verifier_sweep(cfg, rep);
+    deep_paths(cfg, rep);
     let nh = cfg.pick(30u64, 1500);
     for v in 0..4u32 {
         for k in 0..nh {
